@@ -387,12 +387,12 @@ def run(chk, facts, tier):
                 x = strip_casts(l) if not isinstance(l, int) else None
                 if op == '!=' and cval(r) == 0 and x is not None and x.is_call('is_valid_public_key') and len(x.args()) == 1:
                     a = strip_casts(x.args()[0])
-                    g = g or (a.k == 'UnaryOperator' and a.o == '&' and is_name(strip_casts(a.c[0]).c[0], inp) and cval(strip_casts(a.c[0]).c[1]) == 1)
+                    g = g or (elem_addr(a) is not None and is_name(elem_addr(a)[0], inp) and cval(elem_addr(a)[1]) == 1)
             ok = ok and g
         pk = fn.body.calls('public_key_exchanged')
         if ok and pk:
             a = strip_casts(pk[0].args()[2])
-            ok = a.k == 'UnaryOperator' and a.o == '&' and is_name(strip_casts(a.c[0]).c[0], inp) and cval(strip_casts(a.c[0]).c[1]) == 1
+            ok = elem_addr(a) is not None and is_name(elem_addr(a)[0], inp) and cval(elem_addr(a)[1]) == 1
         chk.instance('public-key-validated', fn, 'public_key_exchanged(.., &input[1], ..) only after is_valid_public_key(&input[1])', ok, '' if ok else 'a public key that is not a point of P-256 is used for the key agreement (invalid curve attack)', key='public key handler')
 
 
@@ -406,8 +406,9 @@ def primitives(chk, facts):
 
         def dst_off(c):
             d = strip_casts(c.args()[2])
-            if d.k == 'UnaryOperator' and d.o == '&':
-                return cval(strip_casts(d.c[0]).c[1])
+            ea = elem_addr(d)
+            if ea is not None and not (d.k in REF_KINDS) and not d.is_call():
+                return cval(ea[1])
             return None
         kin = [c for c in cps if c.cn == 'copy' and strip_casts(c.args()[0]).is_call('rbegin') and is_name(base_object(strip_casts(c.args()[0])), key) and strip_casts(c.args()[1]).is_call('rend') and dst_off(c) == 0]
         din = [c for c in cps if c.cn == 'reverse_copy' and is_name(c.args()[0], data) and as_binop(c.args()[1]) is not None and cval(as_binop(c.args()[1])[2]) == 16 and dst_off(c) == 16]
@@ -419,7 +420,7 @@ def primitives(chk, facts):
         ok_out = False
         if len(out) == 1:
             a0, a1 = strip_casts(out[0].args()[0]), strip_casts(out[0].args()[1])
-            ok_out = a0.k == 'UnaryOperator' and cval(strip_casts(a0.c[0]).c[1]) == 32 and a1.k == 'UnaryOperator' and cval(strip_casts(a1.c[0]).c[1]) == 48
+            ok_out = elem_addr(a0) is not None and cval(elem_addr(a0)[1]) == 32 and elem_addr(a1) is not None and cval(elem_addr(a1)[1]) == 48
             res = base_object(strip_casts(out[0].args()[2]))
             r = fn.returns()
             ok_out = ok_out and len(r) == 1 and res is not None and is_name(ret_value(r[0]), strip_casts(res).n)
@@ -551,8 +552,9 @@ def primitives(chk, facts):
         offs = {}
         for c in w:
             d = strip_casts(c.args()[0])
-            if d.k == 'UnaryOperator' and d.o == '&':
-                offs[cval(strip_casts(d.c[0]).c[-1])] = strip_casts(c.args()[1]).n
+            ea = elem_addr(d)
+            if ea is not None:
+                offs[cval(ea[1])] = strip_casts(c.args()[1]).n
         skdm = fn.params[1]['n']
         skds = [n for n in fn.body.walk() if n.k == 'VarDecl' and n.c and strip_casts(n.c[0]).is_call('random_number64')]
         if not (offs.get(0) == skdm and skds and offs.get(8) == skds[0].n):
@@ -564,9 +566,5 @@ def primitives(chk, facts):
 
 
 def base_object_of_subscript(n):
-    n = strip_casts(n)
-    if n.k == 'UnaryOperator' and n.o == '&':
-        s = strip_casts(n.c[0])
-        if s.k in ('ArraySubscriptExpr', 'CXXOperatorCallExpr'):
-            return s.c[-2] if s.k == 'CXXOperatorCallExpr' else s.c[0]
-    return None
+    ea = elem_addr(n)
+    return ea[0] if ea is not None else None
